@@ -12,7 +12,9 @@ from ..node import NodeError
 PROP = "C18"
 ORDINARY = ("invalid_argument", "runtime_error", "out_of_range", "std", "bad_alloc", "walk")
 POLICIES = ["none", "keep", "keep", "evict_always", "evict_random", "lossy_set", "broken"]
-FAULTS = {"throw": 1, "short": 2, "wrong_form": 3}
+FAULTS = {"throw": 1, "short": 2, "wrong_form": 3, "short_wrong_form": 5}
+META_COMPARED = ("length", "purelist_depth", "minmax_depth", "branch_depth", "keys", "numfields", "type")
+BAD_GEN = ("throw", "short", "wrong_form", "short_wrong_form")
 META = {"length": 0, "form": 1, "type": 2, "purelist_depth": 3, "minmax_depth": 4, "branch_depth": 5, "keys": 6,
         "numfields": 7}
 # operations on a virtual array with declared form and length that must not call the generator
@@ -66,9 +68,14 @@ def generate(rng, opts):
             kinds = ["throw"]
             if declare_length:
                 kinds.append("short")
+                if not declare_form:
+                    kinds.append("short_wrong_form")
             if declare_form:
                 kinds.append("wrong_form")
             ev["fault"] = {"key": r.choice(keys), "kind": r.choice(kinds), "calls": r.choice([1, 1, 2])}
+            if r.random() < 0.5:
+                # a question asked between the failed generation and the next successful one
+                ev["fault"]["aftermath"] = r.choice(sorted(META))
         elif r.random() < p_alloc:
             # the k-th C++ allocation inside the lazy operation (materialisation, cache hand-over included) fails
             ev["alloc_fail"] = r.choice([0, 0, 1, 2, 3, 5, 8, 13, 21])
@@ -191,7 +198,7 @@ def execute(node, case, rec, opts):
                     raise Violation("robustness", "non_ordinary_exception", {"event": ev, "error": [x.cls, x.msg[:200]]}, at=t)
                 continue
             rec.ev(t, "meta", ev["what"], a.decode("latin-1")[:200])
-            if ev["what"] in ("length", "purelist_depth", "minmax_depth", "branch_depth", "keys", "numfields") and a != b:
+            if ev["what"] in META_COMPARED and a != b:
                 raise Violation("transparency", "metadata_differs", {"what": ev["what"], "lazy": a.decode("latin-1"),
                                                                      "eager": b.decode("latin-1")}, at=t)
             if declared and i == 0 and gen_calls() != before and case["cache"]["policy"] in ("none", "keep"):
@@ -277,7 +284,7 @@ def execute(node, case, rec, opts):
                 alloc_fired[0] = node.alloc_disarm()[0]
         lo_ = outcome(node, lazy_apply)
         log = node.seam_log()
-        consumed = [ln.split()[1] for ln in log if ln.startswith("gen ") and ln.split()[2] in ("throw", "short", "wrong_form")]
+        consumed = [ln.split()[1] for ln in log if ln.startswith("gen ") and ln.split()[2] in BAD_GEN]
         if fault and fault["key"] in rz.gens:
             node.gen_script_at(rz.gens[fault["key"]], [])     # faults stop
         for x in tmp:
@@ -338,9 +345,26 @@ def execute(node, case, rec, opts):
                 for ln in log:
                     w = ln.split()
                     if w[0] == "gen" and w[1] == k:
-                        bad = w[2] in ("throw", "short", "wrong_form")
+                        bad = w[2] in BAD_GEN
                     elif bad and w[0] == "cache" and w[1] == "set" and w[2] == k and w[3] == "stored":
                         raise Violation("enforcement", "failed_generation_was_cached", {"event": ev, "key": k, "seam_log": log}, at=t)
+            # ... and must leave nothing of itself visible: a metadata question asked now (faults have stopped, no
+            # successful generation has happened yet) is answered as the materialised array answers it
+            what = fault.get("aftermath")
+            if what in META_COMPARED:
+                try:
+                    b = node.meta(em, META[what])
+                    a = node.meta(lslots[i], META[what])
+                except NodeError as x:
+                    if x.cls not in ORDINARY:
+                        raise Violation("robustness", "non_ordinary_exception", {"event": ev, "error": [x.cls, x.msg[:200]]}, at=t)
+                else:
+                    rec.probe("metadata_compared_after_failed_generation")
+                    if a != b:
+                        raise Violation("enforcement", "failed_generation_left_metadata_behind",
+                                        {"event": ev, "what": what, "lazy": a.decode("latin-1"), "eager": b.decode("latin-1"),
+                                         "seam_log": log + ["--- after ---"] + node.seam_log()}, at=t)
+                node.seam_log()
             # recovery (bounded liveness): faults have stopped, the very next attempt must succeed with the twin's value
             l2 = outcome(node, lambda: O.apply(node, op, lslots[i], lambda s: lslots[s], tmp))
             log2 = node.seam_log()
